@@ -1,8 +1,12 @@
 #!/bin/bash
 # developer aid: evaluate a collected seed in the isolated box (mkbox.sh) instead of /repo.
 #   usage: boxseed.sh <box> <name> <prop> [checks]
+# patch.diff is the change as delivered (against the /repo commit of its round); when a later fix:
+# commit touches the same lines, patch_rebased.diff is the same change against the newer tree
 B=$1; n=$2; p=$3; c=${4:-$p}
 mkdir -p $B/verif/seeded/$n
-cp /verif/seeded/$n/patch.diff $B/verif/seeded/$n/patch.diff
+P=/verif/seeded/$n/patch.diff
+if ! git -C $B/repo apply --check $P 2>/dev/null && [ -f /verif/seeded/$n/patch_rebased.diff ]; then P=/verif/seeded/$n/patch_rebased.diff; fi
+cp $P $B/verif/seeded/$n/patch.diff
 (cd $B/verif && python3 seedtest.py $n $B/verif/seeded/$n/patch.diff $p --checks $c 2>&1 | tail -4)
 cp $B/verif/seeded/$n/result.json /verif/seeded/$n/result.json 2>/dev/null || true
